@@ -28,9 +28,13 @@ FINDING_PATH_FAILURE = 'C18-path-failure-leaves-configured'
 
 FILE_B = env.HARNESS_DATA / 'C18_config_B.toml'
 FILE_MALFORMED = env.HARNESS_DATA / 'C18_config_malformed.toml'
+FILE_P = env.HARNESS_DATA / 'C18_config_P.toml'
+SEARCH_DIR = env.HARNESS_DATA / 'C18_search'  # holds performance/C18_pm.toml, engines/C18_edb.xlsx, weather/
 FILE_MISSING = env.HARNESS_DATA / 'C18_no_such_config_file.toml'
 
-VALID = ('defaults', 'kwA', 'fileB', 'fileB+kwC')
+# one valid load per documented way of supplying settings: nothing, keyword arguments, file, file +
+# keyword arguments, explicit search path (keyword / inside the file), data_path_overrides
+VALID = ('defaults', 'kwA', 'fileB', 'fileB+kwC', 'kwPath', 'filePath', 'kwOverrides')
 # failed loads whose failure is a file/directory that cannot be found while resolving paths
 PATH_FAILURES = ('missing_pm', 'missing_engine', 'missing_weather', 'path_excludes_pm')
 INVALID = ('bad_enum', 'bad_type', 'bad_top', 'missing_file', 'bad_toml') + PATH_FAILURES
@@ -48,6 +52,7 @@ ALPHABETS = {
         'reset', 'get', 'read', 'load:defaults', 'load:kwA', 'load:fileB', 'load:fileB+kwC',
         'load:bad_enum', 'load:bad_type', 'load:bad_top', 'load:missing_file', 'load:bad_toml',
         'load:missing_pm', 'load:missing_engine', 'load:missing_weather', 'load:path_excludes_pm',
+        'load:kwPath', 'load:filePath', 'load:kwOverrides',
         'set:top', 'set:weather', 'set:emissions', 'set:direct',
     ],
 }  # fmt: skip
@@ -77,6 +82,17 @@ def load_args(kind):
             'weather': {'weather_data_dir': 'weather'},
             'emissions': {'nox_method': 'p3t3', 'gse_enabled': False, 'fuel': 'SAF'},
         }
+    if kind == 'kwPath':  # explicit search path as keyword argument; the named files exist only there
+        return None, {
+            'path': [str(SEARCH_DIR)],
+            'performance_model': 'performance/C18_pm.toml',
+            'engine_file': 'engines/C18_edb.xlsx',
+            'emissions': {'co_method': 'none'},
+        }
+    if kind == 'filePath':  # explicit (relative) search path inside the configuration file
+        return Path(FILE_P), {}
+    if kind == 'kwOverrides':  # the way the repository's own test fixture loads
+        return None, {'data_path_overrides': [Path(env.TEST_DATA)], 'emissions': {'lifecycle_enabled': False}}
     if kind == 'bad_enum':
         return None, {'emissions': {'nox_method': 'bogus'}}
     if kind == 'bad_type':
@@ -163,6 +179,10 @@ def expected_values(kind):
         out['weather.weather_data_dir'] = str(loc)
     for k, v in eff['emissions'].items():
         out[f'emissions.{k}'] = v.lower() if k in ENUM_KEYS else v
+    # search-path settings are compared only when a layer names them (then they are overlay values)
+    for key in ('path', 'data_path_overrides'):
+        if eff.get(key):
+            out[key] = [str(Path(p).resolve()) for p in eff[key]]
     return out
 
 
@@ -171,6 +191,8 @@ def canon(v):
         return str(v.value).lower()
     if isinstance(v, Path):
         return str(v)
+    if isinstance(v, (list, tuple)):
+        return [canon(x) for x in v]
     if v is None or type(v) in (bool, str, int, float):
         return v
     return f'<{type(v).__name__}>'
@@ -342,7 +364,9 @@ class ConfigDriver:
                 raise HarnessError(f'C18: load kind {kind} is meant to name a missing file but the reference finds it')
         if FILE_MISSING.exists():
             raise HarnessError(f'C18: {FILE_MISSING} must not exist')
-        self.keys = list(self.expected['defaults'])
+        self.keys = list(dict.fromkeys(k for v in self.expected.values() for k in v))
+        if Path('data/C18_search').resolve() != SEARCH_DIR.resolve():
+            raise HarnessError('C18: the working directory must be the harness directory (relative search path in file P)')
         if len({fingerprint_values(v) for v in self.expected.values()}) != len(VALID):
             raise HarnessError('C18: valid load kinds must have pairwise different effective values')
         # bookkeeping for the pristine re-execution of violating histories (see build())
